@@ -308,6 +308,9 @@ func Leaves(msg protoreflect.Message, prefix string) []Leaf {
 					m := msg.Mutable(fd).Message()
 					sf := m.Descriptor().Fields().ByName("seconds")
 					delta := int64(rapid.IntRange(1, 100000).Draw(t, "tsd"))
+					if m.Get(sf).Int()+delta > 253402300799 {
+						delta = -delta // (stay inside the range a Timestamp may hold: 0001-01-01 .. 9999-12-31)
+					}
 					if m.Get(sf).Int()+delta == 0 {
 						delta++ // (not onto second 0: with nanos 0 that is the all-zero date)
 					}
